@@ -2243,7 +2243,7 @@ class GattServer(GattLayer):
                     # Send error
                     self.error(
                         BleAttOpcode.EXECUTE_WRITE_REQUEST,
-                        request.handle,
+                        handle,
                         BleAttErrorCode.INVALID_HANDLE
                     )
 
